@@ -36,14 +36,17 @@ Clauses (names = "C10." + ...), per (row, config) with config = (temperature, to
   strategy_step.action-feasible / .logprob-matches-reference   Greedy/Sampling/Evaluate .step incl. store_all_logp
 
 Bound: float32 CPU, N in 2..8 actions. Rows per N: exhaustive value grid V^N x all non-empty masks for N <= 3 (quick)
-/ N <= 4 (thorough, smaller V for N = 4), plus random families (randn, 10*randn, dyadic multiples of 1/64, small-int ties,
+/ N <= 4 (thorough), V = {-1e4,-1,0,1e-8,1,1+2^-23,1e4}, plus random families (24 rows each quick / 500 thorough: randn, 10*randn, dyadic multiples of 1/64, small-int ties,
 all-equal, huge +-1e4 mixes, adjacent-float near-ties) x random masks, single-feasible masks, all-True masks; duplicates
 removed. Configs: temperature {0.1,.5,1,2,10} x top_k {0,1,2,3,N,N+5} x top_p {0,.1,.5,.9,.99,1, 1e-9,1e-7,1e-4} x
-tanh_clipping {0,1,10}, full product. Exact numbers are printed in the result's `bound`.
+tanh_clipping {0,1,10}, full product (1e-9, 1e-7, 1e-4 probe the top_p -> 0 end of the quantifier). Exact numbers are
+printed in the result's `bound`. A library call that does not return within 20 s (sampling's resample loop can spin
+forever once a masked action has probability mass) is reported as a violation of the clause being checked.
 """
 import itertools
 import math
 import os
+import signal
 import sys
 
 sys.path.insert(0, os.path.dirname(os.path.abspath(__file__)))
@@ -66,6 +69,7 @@ INF, U = math.inf, 2.0**-21
 TEMPS, PS, CLIPS = [0.1, 0.5, 1.0, 2.0, 10.0], [0.0, 0.1, 0.5, 0.9, 0.99, 1.0, 1e-9, 1e-7, 1e-4], [0, 1.0, 10.0]
 SHIFTS = [3.0, -7.5, 64.0]
 V = [-1e4, -1.0, 0.0, 1e-8, 1.0, 1.0000001, 1e4]
+CALL_TIMEOUT, HUNG = 20.0, set()
 OBS = {}  # observed in-place behaviour of process_logits on its input, keyed by tanh_clipping > 0
 
 
@@ -127,12 +131,28 @@ def flag(rep, rows, name, what, x, m, cfg, **extra):
     (rep.known if name in KNOWN else rep.violation)("C10." + name if not name.startswith("C10.") else name, what, inp)
 
 
+class LibTimeout(Exception):
+    pass
+
+
+def _alarm(*_):
+    raise LibTimeout(f"no result within {CALL_TIMEOUT} s (DecodingStrategy.sampling resamples forever while a masked action has probability mass)")
+
+
 def call(rep, fn, name, x, m, cfg):
+    """Run a library call; an exception (or a hang > CALL_TIMEOUT s) on a valid input is a violation of clause `name`."""
+    if name in HUNG:
+        return None
+    signal.setitimer(signal.ITIMER_REAL, CALL_TIMEOUT)
     try:
         return fn()
-    except Exception as e:  # library exception on a valid input
-        flag(rep, torch.ones(len(x), dtype=torch.bool), name, f"library raised {type(e).__name__}: {e}", x, m, cfg)
+    except Exception as e:
+        if isinstance(e, LibTimeout):
+            HUNG.add(name)  # do not pay the timeout again for every config
+        flag(rep, True, name, f"library raised {type(e).__name__}: {e}", x, m, cfg)
         return None
+    finally:
+        signal.setitimer(signal.ITIMER_REAL, 0)
 
 
 def proc(x, m, cfg):
@@ -260,7 +280,7 @@ def check_rows_independent(rep, x, m, g, n):
             one = call(rep, lambda: proc(xb[b:b + 1].clone(), mb[b:b + 1].clone(), cfg), "C10.process_logits.no-exception", xb[b:b + 1], mb[b:b + 1], cfg)
             if one is not None and not torch.equal(one[0].nan_to_num(nan=7.0), full[b].nan_to_num(nan=7.0)):
                 flag(rep, torch.arange(len(xb)) == b, "C10.process_logits.rows-independent", "row output depends on the other rows of the batch",
-                     xb, mb, cfg, batch_logits=xb.tolist(), batch_mask=mb.tolist(), alone=one[0], in_batch=full[b])
+                     xb, mb, cfg, batch_logits=xb.tolist(), batch_mask=mb.tolist(), alone=one[0].tolist(), in_batch=full[b].tolist())
 
 
 def check_filters(rep, x, m):
@@ -303,10 +323,14 @@ def check_sampling_freq(rep, g, draws):
     x = torch.tensor([[0.0, 1.0, 2.0, 3.0, -1.0], [1.0, 1.0, 1.0, 1.0, 1.0], [5.0, 0.0, 0.0, -5.0, 2.0], [0.3, 0.2, 0.1, 0.0, 9.0]])
     m = torch.tensor([[1, 1, 0, 1, 1], [1, 0, 1, 1, 0], [1, 1, 1, 1, 1], [1, 1, 1, 0, 0]]).bool()
     for cfg in [(1.0, 0, 0.0, 0), (2.0, 3, 0.0, 0), (0.5, 0, 0.9, 0), (1.0, 2, 0.5, 10.0)]:
-        lp = proc(x.clone(), m, cfg)
         R = ref(x, m, *cfg)
         B, N = x.shape
-        s = D.DecodingStrategy.sampling(lp.repeat_interleave(draws, 0), m.repeat_interleave(draws, 0)).view(B, draws)
+        lp = call(rep, lambda: proc(x.clone(), m, cfg), "C10.process_logits.no-exception", x, m, cfg)
+        s = None if lp is None else call(rep, lambda: D.DecodingStrategy.sampling(lp.repeat_interleave(draws, 0), m.repeat_interleave(draws, 0)),
+                                         "C10.sampling.frequencies", x, m, cfg)
+        if s is None:
+            continue
+        s = s.view(B, draws)
         freq = torch.stack([(s == j).double().mean(-1) for j in range(N)], -1)
         sd = (R["f"] * (1 - R["f"]) / draws).sqrt()
         rep.cases += B * draws
@@ -319,8 +343,11 @@ def check_ll_entropy(rep, g, trials):
         B, S, N = 4, 1 + t % 5, 2 + t % 7
         x, m = torch.randn(B * S, N, generator=g) * (1 + t % 3), rand_masks(B * S, N, g)
         cfg = (TEMPS[t % 5], [0, 2, N][t % 3], [0.0, 0.9, 0.5][(t // 3) % 3], CLIPS[(t // 2) % 3])
-        lp = proc(x.clone(), m, cfg).view(B, S, N)
-        act = D.DecodingStrategy.sampling(lp.view(-1, N), m).view(B, S)
+        lp = call(rep, lambda: proc(x.clone(), m, cfg), "C10.process_logits.no-exception", x, m, cfg)
+        act = None if lp is None else call(rep, lambda: D.DecodingStrategy.sampling(lp, m), "C10.sampling.positive-probability-feasible", x, m, cfg)
+        if act is None:
+            continue
+        lp, act = lp.view(B, S, N), act.view(B, S)
         sm = torch.rand(B, S, generator=g) < 0.7
         rep.cases += 1
         # oracle, plain loops in float64
@@ -377,8 +404,11 @@ def check_ll_entropy(rep, g, trials):
         rep.check(abs(float(got[0]) - float(lp[0, 0, 3])) < 1, "C10.get_log_likelihood.value", "wrong value for very negative log-prob", inp)
     except AssertionError as ex:
         rep.known("C10.get_log_likelihood.finite-logprob-below-minus-1000.assert", f"finite log-prob {float(lp[0, 0, 3])} of a feasible action rejected: {ex}", inp)
-    H = rep.guard(lambda: calculate_entropy(lp.clone()), "entropy-huge")
-    rep.check(H is not None and abs(float(H[0]) - math.log(2)) < 1e-5, "C10.calculate_entropy.value", "entropy of [.5,0,.5,~0] != ln 2", inp)
+    try:
+        H = float(calculate_entropy(lp.clone())[0])
+        rep.check(abs(H - math.log(2)) < 1e-5, "C10.calculate_entropy.value", f"entropy of [.5,0,.5,~0] is {H}, expected ln 2", inp)
+    except Exception as ex:
+        rep.violation("C10.calculate_entropy.value", f"library raised {type(ex).__name__}: {ex}", inp)
 
 
 def check_strategy_step(rep, g, trials):
@@ -411,6 +441,7 @@ def check_strategy_step(rep, g, trials):
 
 def main():
     a = _lib.args()
+    signal.signal(signal.SIGALRM, _alarm)
     torch.set_num_threads(2)
     torch.manual_seed(a.seed)
     g = torch.Generator().manual_seed(a.seed + 1)
